@@ -403,7 +403,7 @@ def rule_transitions(ctx):
     expect = {
         "StepState.SUCCEEDED": {"step.Step.mark_completed"},
         "StepState.FAILED": {"step.Step.mark_completed"},
-        "StepState.PENDING": {"step.Step.mark_completed", "workflow.Workflow.mark_step_pending", "executor.Executor._reset_step_to_pending", "executor.Executor.validate_dynamic_job", "executor.Executor._restart_if_declared_again"},
+        "StepState.PENDING": {"step.Step.mark_completed", "workflow.Workflow.mark_step_pending", "executor.Executor._reset_step_to_pending", "executor.Executor.validate_dynamic_job", "executor.Executor._restart_if_declared_again", "executor.Executor._drop_verdict_if_declared_again"},
         "<state>": {"scheduler.Scheduler.pop_next_job"},
     }
     for const, owners in expect.items():
